@@ -476,6 +476,7 @@ func init() {
 	c10a := crossDiff("calm", "gc", "gc-sse", "stack", "gc-2procs")
 	c10b := crossDiff("calm-dec", "syncgc")
 	c10c := crossDiff("calm126", "gc126", "stack126")
+	c10d := crossDiff("calm-optdec-vm", "gc-optdec-vm")
 	plans["C10"] = &Plan{
 		Level: "exploration",
 		Rule: "the same seeded case list is executed in a calm process and in stressed processes and the per-case digests (encoded text; dump of what it decodes back to; dump of decoded destinations) must be equal. Cases: ConfigStd.Marshal + Unmarshal of the text, and Unmarshal of documents (fresh and pre-populated destinations), over 16 callback types (struct/string/pointer-carrying map keys through TextMarshaler/TextUnmarshaler, json.Marshaler/Unmarshaler with value and pointer receivers, TextMarshaler values, omitzero fields, a struct mixing them with every pointer-carrying field shape) and over the random types of the C01/C03 generators (every opcode family, out-of-line recursion). Every call runs on a fresh goroutine after 0-110 padding frames (entry into generated code at varying distance from the end of a small stack). In stressed processes every callback invoked FROM generated code performs a seeded action: runtime.GC; GC + 3000 allocations of 11 size classes + GC (recycles freed slots); 3000-frame recursion (the stack is copied with generated frames on it); debug.Stack/runtime.Callers/runtime.Stack(all); yield + allocations; hand-off (another goroutine collects twice while this one is parked = stack scan/shrink of a parked goroutine with generated frames); a nested sonic Marshal+Unmarshal (re-entrancy); GC + recursion + churn. " +
@@ -491,6 +492,9 @@ func init() {
 				{Name: "gc-sse", Flavor: "plain", NBatch: n(1, 4), Env: append([]string{"SONIC_MODE=noavx2"}, gcEnv...), TimeoutS: n(900, 6000)},
 				{Name: "gc-2procs", Flavor: "plain", NBatch: n(1, 8), Env: append([]string{"GOMAXPROCS=2"}, gcEnv...), TimeoutS: n(900, 6000)},
 				{Name: "stack", Flavor: "plain", NBatch: nb, Env: []string{"VERIF_C10=stack", "GOGC=5"}, TimeoutS: n(900, 6000)},
+				// the implementations without generated code are held to the same statement (unsafe Go code)
+				{Name: "calm-optdec-vm", Flavor: "plain", NBatch: n(1, 8), Env: []string{"SONIC_USE_OPTDEC=1", "SONIC_ENCODER_USE_VM=1"}, TimeoutS: n(900, 6000)},
+				{Name: "gc-optdec-vm", Flavor: "plain", NBatch: n(1, 8), Env: append([]string{"SONIC_USE_OPTDEC=1", "SONIC_ENCODER_USE_VM=1"}, gcEnv...), TimeoutS: n(900, 6000)},
 				{Name: "calm-dec", Flavor: "plain", Mode: "dec", NBatch: n(2, 8), TimeoutS: n(900, 6000)},
 				{Name: "syncgc", Flavor: "plain", Mode: "dec", NBatch: n(2, 8), Env: []string{"SONIC_SYNC_GC=1", "GODEBUG=clobberfree=1"}, TimeoutS: n(900, 6000)},
 			}
@@ -521,6 +525,10 @@ func init() {
 			x := v.Extra
 			v.Extra = nil
 			c10b(v, runs, results)
+			merge(x)
+			x = v.Extra
+			v.Extra = nil
+			c10d(v, runs, results)
 			merge(x)
 			if tier == "thorough" {
 				x = v.Extra
